@@ -137,6 +137,7 @@ struct SlotOps {
     void (*view_read)(const void *view, const size_t *c, uint64_t *bits) = nullptr;
     bool ref_output = false; // the view's lookup returns a reference into the storage (writable at its own coordinate type)
     void (*view_write_at)(const void *view, const double *x, const uint64_t *bits) = nullptr;
+    void (*storage_write)(const void *obj, const size_t *c, const uint64_t *bits) = nullptr; // through a fresh view of the storage-order layer
 };
 
 extern const StackDesc g_stacks[];
